@@ -87,6 +87,7 @@ def main(tier):
     # ---- value level ------------------------------------------------------------------------------------
     n_v = 40 if tier == "quick" else 400
     vcases = [layerlib.gen_case(rng, D=2 if i % 6 else 3, group="B" if i % 5 else "ROT") for i in range(n_v)]
+    vcases = layerlib.corner_cases(2) + vcases
     for c in vcases:
         c["ngs"] = 0                      # equivariance of the layer is C06's business; here only BankInvariant is vacuous
     for i, m in enumerate(["auto", "mean", "scalar", "true", "false"]):
